@@ -13,13 +13,67 @@ import (
 
 // C18 — obfuscated2 handshake agrees on protocol, DC and both byte streams.
 func init() {
-	register("C18", []string{"mtproxy/obfuscated2"}, func(c *engine.Ctx) {
+	register("C18", []string{"mtproxy/obfuscated2", "transport"}, func(c *engine.Ctx) {
 		c.Explain("C18: (R1) generateInit returns only headers whose first byte is not 0xef, whose first word is none of HEAD, POST, GET, OPTI, 0x02010316, 0xdddddddd, 0xeeeeeeee and whose second word is non-zero (constants collected from the guards of the accepting exit). (R2) key schedule shape: encrypt key/iv = init[8:40]/init[40:56]; decrypt key/iv = reversed(init[8:56])[0:32]/[32:48]; with a secret both keys become SHA256(key ‖ secret[0:16]); the CTR streams are created from the matching key/iv pairs; generateKeys places the protocol tag at [56:60] and the DC at [60:62] before encrypting, and the header is init[0:56] ‖ encrypted[56:64]. (R3) Accept derives the streams from the received 64 bytes, swaps them, decrypts the header with the (swapped) decrypt stream and reads tag/DC from the same offsets; Write uses the encrypt stream, Read the decrypt stream.")
 		c.NotCover("AES-CTR keystream equality under chunking (stdlib); the sign of the DC id (uint16 metadata)")
 		c18R1(c)
 		c18R2(c)
 		c18R3(c)
+		c18R4(c)
 	})
+}
+
+// c18R4: the server-side listeners put the recovered protocol tag back in
+// front of the decrypted stream so that codec detection sees what a plain TCP
+// client would have sent: one byte 0xef for abridged, the four tag bytes
+// otherwise. Both listeners (obfuscated TCP and websocket) are siblings; each
+// must replay Protocol[:1] exactly on the Protocol[0] == 0xef edge and
+// Protocol[:] on the other (three extra 0xef bytes corrupt the first frame).
+func c18R4(c *engine.Ctx) {
+	const ef = 0xef // codec.AbridgedClientStart[0]; C16.R5 decides that detectCodec tests the same byte
+	n := 0
+	for _, f := range allFunctions(c, c.SSA["transport"]) {
+		for _, g := range engine.WithAnon(f) {
+			var short, full []ssa.CallInstruction
+			for _, call := range engine.CallsTo(g, false, "bytes.NewReader") {
+				sl, ok := engine.Unwrap(call.Common().Args[0]).(*ssa.Slice)
+				if !ok || !strings.HasSuffix(engine.Describe(sl.X), ".Protocol") {
+					continue
+				}
+				if sl.High == nil {
+					full = append(full, call)
+				} else if k, isK := engine.ConstInt(sl.High); isK && k == 1 && sl.Low == nil {
+					short = append(short, call)
+				} else {
+					short = append(short, nil)
+				}
+			}
+			if len(short)+len(full) == 0 {
+				continue
+			}
+			n++
+			isEF := func(want token.Token) func(engine.Cmp) bool {
+				return func(k engine.Cmp) bool {
+					for _, q := range []engine.Cmp{k, k.Swap()} {
+						if !strings.Contains(engine.Describe(q.X), ".Protocol[0]") || q.Op != want {
+							continue
+						}
+						if v, isK := engine.ConstInt(q.Y); isK && (v == 0xef || v == ef) {
+							return true
+						}
+						if strings.Contains(engine.Describe(q.Y), "AbridgedClientStart[0]") {
+							return true
+						}
+					}
+					return false
+				}
+			}
+			ok := len(short) == 1 && len(full) == 1 && short[0] != nil &&
+				engine.GuardedBy(short[0], isEF(token.EQL)) && engine.GuardedBy(full[0], isEF(token.NEQ))
+			c.Check(ok, "C18.R4", engine.FuncID(g)+"/tag-replayed-as-a-plain-client-sends-it", g.Pos(), "the listener must replay Protocol[:1] when Protocol[0] is the abridged tag 0xef and Protocol[:] otherwise (one-byte replays: %d, four-byte replays: %d)", len(short), len(full))
+		}
+	}
+	c.Floor("C18.R4", 2, n)
 }
 
 func c18R1(c *engine.Ctx) {
